@@ -368,7 +368,31 @@ func Callee(com *ssa.CallCommon) *ssa.Function {
 
 // IsInvoke reports whether the call is an interface invoke of exactly this method object.
 func IsInvoke(com *ssa.CallCommon, m *types.Func) bool {
-	return m != nil && com.IsInvoke() && com.Method == m
+	if m == nil || !com.IsInvoke() {
+		return false
+	}
+	return com.Method == m || NarrowedView(com.Method, m, com.Value.Type())
+}
+
+// NarrowedView: got is the method of an unexported in-scope interface that repeats contract method want (same name and
+// signature): code that holds its collaborator through such a narrowed view still calls the contract method.
+func NarrowedView(got, want *types.Func, recvType types.Type) bool {
+	if got == nil || want == nil || got.Name() != want.Name() {
+		return false
+	}
+	n := NamedOf(recvType)
+	if n == nil || n.Obj().Exported() || n.Obj().Pkg() == nil || !InScopePath(n.Obj().Pkg().Path()) {
+		return false
+	}
+	if _, isIface := n.Underlying().(*types.Interface); !isIface {
+		return false
+	}
+	gs, ok1 := got.Type().(*types.Signature)
+	ws, ok2 := want.Type().(*types.Signature)
+	if !ok1 || !ok2 {
+		return false
+	}
+	return types.Identical(types.NewSignatureType(nil, nil, nil, gs.Params(), gs.Results(), gs.Variadic()), types.NewSignatureType(nil, nil, nil, ws.Params(), ws.Results(), ws.Variadic()))
 }
 
 // IsCallTo reports whether the call's static callee (origin-folded) is fn.
